@@ -35,6 +35,7 @@ def main():
     shutil.rmtree(SCRATCH, ignore_errors=True)
     os.makedirs(SCRATCH)
     sh(f"rsync -a --exclude='*.aux' {VERIF}/coq/ {SCRATCH}/coq/")
+    shutil.copy(os.path.join(VERIF, "tools", "py2coq.py"), os.path.join(SCRATCH, "py2coq.py"))   # the translator as it is NOW
     targets = [t for t in TARGETS if os.path.exists(os.path.join(VERIF, "coq", t[:-1]))]
     base = {f: open(f).read() for f in glob.glob(f"{SCRATCH}/coq/Gen/Src_*.v")}
     out = {}
@@ -55,7 +56,7 @@ def main():
         for f, t in base.items():
             open(f, "w").write(t)
         env = f"VERIF_REPO_PKG={SCRATCH}/repo/flamapy/metamodels/fm_metamodel VERIF_GEN_DIR={SCRATCH}/coq/Gen"
-        rc, o = sh(f"{env} /venv/bin/python {VERIF}/tools/py2coq.py all")
+        rc, o = sh(f"{env} /venv/bin/python {SCRATCH}/py2coq.py all")
         bad = [ln for ln in o.splitlines() if "CANNOT TRANSLATE" in ln]
         if rc != 0:
             out[mid] = "untranslatable: " + "; ".join(b.split("CANNOT TRANSLATE", 1)[1].strip()[:110] for b in bad[:3])
